@@ -626,6 +626,11 @@ fn order_strategy(t: Tier) -> BoxedStrategy<Scenario> {
     )
 }
 
+/// streams are added (by several threads at once) or removed (while another joins) during traffic
+fn comings_and_goings_strategy(t: Tier) -> BoxedStrategy<Scenario> {
+    prop_oneof![addstream_strategy(t), removal_strategy(t)].boxed()
+}
+
 fn c02_oracle(sc: &Scenario, ex: &Execution, info: &mut CaseInfo) -> Vec<Finding> {
     let (_wrap, overlap) = conc_common(sc, ex, info);
     let h = Hist::build(sc, ex);
@@ -758,6 +763,31 @@ fn population_strategy(t: Tier) -> BoxedStrategy<Scenario> {
             fork: 1,
             ..TrafficParams::default()
         },
+            t,
+        ),
+        sched_len(t, 500),
+        conc_opts(),
+    )
+}
+
+/// population changes on futures queues whose producers are Sink tasks and whose consumers are
+/// Stream tasks, with consumers that leave: a wake-up lost because of a population change leaves a
+/// task parked (round-5 seed C12-6)
+fn population_tasks_strategy(t: Tier) -> BoxedStrategy<Scenario> {
+    gen::traffic(
+        gen::qcfg(BOTH, FutMode::Always, prop_oneof![3 => Just(1u8), 2 => Just(2u8), 1 => Just(4u8)].boxed(), gen::wait_any()),
+        scaled(
+            TrafficParams {
+                max_values: 5,
+                max_producers: 2,
+                sink_tasks: true,
+                leave: 3,
+                w_clone_tx: 3,
+                w_clone_rx: 4,
+                w_convert: 2,
+                max_consumers: 3,
+                ..TrafficParams::default()
+            },
             t,
         ),
         sched_len(t, 500),
@@ -1301,6 +1331,13 @@ pub fn registry() -> Vec<PropDef> {
                     source: Source::Systematic { strategy: delivery_strategy, cases: cases_fn!(20, 12) },
                     oracle: c01_oracle,
                 },
+                // the set of streams changes while values are in flight: streams leave (and one
+                // joins and is drained) while producers send (the removal scenarios of C11)
+                Part {
+                    name: "while_streams_come_and_go",
+                    source: Source::Random { strategy: comings_and_goings_strategy, cases: cases_fn!(3000, 60000) },
+                    oracle: c01_oracle,
+                },
             ],
             rule: "generated (configuration, per-thread programs, schedule) triples executed on the serialising scheduler; non-trivial = calls of different threads overlap AND more than N values were accepted (ring wrapped) AND at least one preemption happened inside a send/receive call; distinct = distinct hash of (scenario, realised trace)",
             assumptions: vec![SC_ASSUME, SAMPLE_ASSUME, "loss is only judged for streams that were told the end; values accepted while a stream was being created may or may not belong to it"],
@@ -1315,6 +1352,11 @@ pub fn registry() -> Vec<PropDef> {
                 Part {
                     name: "systematic",
                     source: Source::Systematic { strategy: order_strategy, cases: cases_fn!(20, 12) },
+                    oracle: c02_oracle,
+                },
+                Part {
+                    name: "while_streams_come_and_go",
+                    source: Source::Random { strategy: comings_and_goings_strategy, cases: cases_fn!(3000, 60000) },
                     oracle: c02_oracle,
                 },
             ],
@@ -1558,12 +1600,17 @@ pub fn registry() -> Vec<PropDef> {
                 oracle: c12_oracle,
             },
                 Part {
+                    name: "population_of_tasks",
+                    source: Source::Random { strategy: population_tasks_strategy, cases: cases_fn!(4000, 80000) },
+                    oracle: c12_oracle,
+                },
+                Part {
                     name: "systematic",
                     source: Source::Systematic { strategy: population_strategy, cases: cases_fn!(20, 12) },
                     oracle: c12_oracle,
                 },
             ],
-            rule: "traffic profile whose threads clone/drop senders and receivers and convert single<->multi between operations; oracles of C01+C02+C03; non-trivial = at least two handle-population changes overlap a send/receive of another thread",
+            rule: "traffic profile whose threads clone/drop senders and receivers and convert single<->multi between operations (plain threads, and Sink/Stream tasks with leaving consumers on futures queues); oracles of C01+C02+C03+C07, refusals outside any overlap, every stuck state; non-trivial = at least two handle-population changes overlap a send/receive of another thread",
             assumptions: vec![SC_ASSUME, SAMPLE_ASSUME],
         },
         PropDef {
